@@ -49,3 +49,11 @@ claim("C07",
       "secs < 86400 and frac < 2*10^9 and no arithmetic in naive/time can overflow. The leap-second stepping rules and the difference of two times are not decided.",
       "Trusted: analysis/sym.py, analysis/abs*.py, specs/justifications.txt.",
       "DESIGN.md 5/C07")
+claim("C02",
+      "constant comparison with the calendar oracle, term-shape/sibling rules (Euclidean split, unit factors), acceptance boxes, interval abstract interpretation",
+      "Decides: the epoch constant equals the oracle's day number of 1970-01-01 and is added/subtracted symmetrically; negative inputs floor because the split is "
+      "div_euclid/rem_euclid with one divisor D per unit and multiplier M with D*M = 10^9; the day count is compared with the i32 range before the cast; accessor factors "
+      "match; wrappers delegate; the nanosecond field is accepted exactly per the NaiveTime box; no arithmetic on these paths can wrap (abstract interpretation). "
+      "Equality of both directions for every value and SystemTime interop are not decided.",
+      "Trusted: specs/tables/calendar_oracle.py; analysis/sym.py; analysis/abs*.py; specs/justifications.txt.",
+      "DESIGN.md 5/C02")
